@@ -209,7 +209,11 @@ int main(int argc, char **argv)
 		int r = json_object_put(shared[0]);
 		printf("RESULT scenario=readers threads=%d iters=%d read_mismatches=%d worker_freed=%d final_put=%d callbacks=%d\n", NT, ITERS, __atomic_load_n(&premature, __ATOMIC_RELAXED), __atomic_load_n(&freed_reports, __ATOMIC_RELAXED), r, __atomic_load_n(&cb_count[0], __ATOMIC_RELAXED));
 	} else {
-		struct json_object *o = json_object_new_object(); int distinct = 1; long notfound = 0;
+		struct json_object *o; int distinct = 1; long notfound = 0;
+		/* iters == 2: before the late observation the application (re)selects its string hash -- the other one and back to the default, the documented
+		 * configuration call; "fixed exactly once per process" leaves no room for a new seed here */
+		if (ITERS == 2) { json_global_set_string_hash(JSON_C_STR_HASH_PERLLIKE); json_global_set_string_hash(JSON_C_STR_HASH_DFLT); }
+		o = json_object_new_object();
 		hashes[NT] = lh_get_hash(json_object_get_object(o), "the fixed key"); json_object_put(o);
 		for (i = 0; i < NT; i++) if (hashes[i] != hashes[NT] || hashes_second[i] != hashes[NT]) { distinct = 2; bad++; }
 		/* a key inserted during the race must be found (and deletable) afterwards, from another thread */
